@@ -612,6 +612,8 @@ func c02HandPrograms() []c02Hand {
 		"  $ x = 1\n  $ x = 2\n  > x",
 		"  $ x = 1\n  switch x {\n    case 1 {\n      $ y = 2\n    }\n  }\n  > y",
 		"  $ x = 1\n  $ m = match x {\n    n => n + 1\n  }\n  > n",
+		"  $ n = 5\n  $ m = match 1 {\n    n => n + 1\n  }\n  > [m, n]",
+		"  $ k = 5\n  for k, v in [7] {\n    $ t = v\n  }\n  > k",
 		"  $ input = 5\n  > input",
 		"  $ query = 5\n  > query",
 		"  $ headers = 5\n  > headers",
@@ -743,6 +745,7 @@ func c02HandPrograms() []c02Hand {
 		hs = append(hs, c02Hand{src, rs})
 		hs = append(hs, c02Hand{strings.Replace(src, "> input", "> {n: input.a, a: input.age, r: input.role}", 1), rs})
 		hs = append(hs, c02Hand{strings.Replace(src, "< input: NewUser", "< input: Missing", 1), rs})
+		hs = append(hs, c02Hand{strings.Replace(src, "  tags: str[]\n", "  tags: str[] = []\n  n: int = 1 + 1\n  m: int = -1\n", 1), rs})
 		hs = append(hs, c02Hand{strings.Replace(src, "< input: NewUser", "< input: int", 1), rs})
 	}
 	// request-derived arithmetic and coercions
